@@ -1210,9 +1210,9 @@ where
     let n = behaviours.len();
     // behaviours carrying the same "group" number are kept in the same trace file (same TLC run)
     let mut chunks: Vec<Vec<Value>> = (0..threads).map(|_| vec![]).collect();
-    for (i, b) in behaviours.iter().enumerate() {
+    for (i, b) in behaviours.into_iter().enumerate() {
         let slot = b["group"].as_u64().map(|g| g as usize).unwrap_or(i) % threads;
-        chunks[slot].push(b.clone());
+        chunks[slot].push(b);
     }
     let mut handles = vec![];
     for (t, chunk) in chunks.into_iter().enumerate() {
